@@ -9,8 +9,9 @@ Addresses are (array, cell row): `st i` = row `i` of the states array, `out i` =
 `cellStep`; that the real code leaves them alone is C04's frame oracle and the C05 run facts).
 The goroutine of cell `i` is ONE atomic step whose footprint is {st i, out i}: it reads its own state row and output
 rows, runs `cellStep` (decode parameters, pick input block `i % nBlocks`, run the kernel, overwrite) and writes its
-own state row and output rows. (Finer-grained splittings of that step have the same footprint, so by T2 they give
-the same result.)
+own state row and output rows. (Finer-grained splittings of that step whose steps stay inside that footprint give the
+same result under every interleaving: `OW.Props.C05.refined_cells_any_interleaving`. The footprint itself — distinct
+addresses for distinct cells — is ASSERTED here; that the rows are distinct storage positions is `C04Nd.views_disjoint`.)
 -/
 namespace OW.Sim.CellTasks
 open OW OW.Sim OW.Sim.Interleave
